@@ -30,6 +30,25 @@ def local_callees(fx, path, pred=None):
     return out
 
 
+def reach(fx, root, pred, depth=4):
+    """Local callees satisfying pred that `root` reaches directly or through private helper functions."""
+    import inline as INL
+    out, seen, todo = [], set(), [(root, 0)]
+    while todo:
+        q, d_ = todo.pop(0)
+        if q in seen or q is None:
+            continue
+        seen.add(q)
+        for r_ in local_callees(fx, q, pred):
+            if r_ not in out:
+                out.append(r_)
+        if d_ < depth:
+            for r_ in local_callees(fx, q, lambda c, f, t: INL.is_private_helper(fx, c.get('res'))):
+                if r_ not in out:
+                    todo.append((r_, d_ + 1))
+    return out
+
+
 def is_inherent(c, f, t):
     return not c.get('trait') and not f.get('impl_trait')
 
@@ -69,11 +88,15 @@ def roles(fx):
             else:
                 r.setdefault('is_on_curve', p)
         oc = r.get('is_on_curve')
-        cb = local_callees(fx, oc, lambda c, f, t: is_inherent(c, f, t) and len(t['args']) == 0)
+        # the constant-coefficient helper: the 0-argument inherent function the curve-equation test reaches (possibly
+        # through private helpers it was factored into)
+        cb = reach(fx, oc, lambda c, f, t: is_inherent(c, f, t) and len(t['args']) == 0 and (f.get('impl_self_ty') == aff))
         if cb:
             r['get_coeff_b'] = cb[0]
         cu = fx.impl_method('EncodedPoint', comp, 'into_affine_unchecked')
-        gp = local_callees(fx, cu, lambda c, f, t: is_inherent(c, f, t) and len(t['args']) == 2)
+        # the (x, greatest) -> Option<point> helper of the compressed decoder, by signature
+        gp = reach(fx, cu, lambda c, f, t: is_inherent(c, f, t) and len(t['args']) == 2 and 'bool' in (f.get('sig') or '')
+                   and ('-> std::option::Option<%s>' % aff) in (f.get('sig') or ''))
         if gp:
             r['get_point_from_x'] = gp[0]
         rnd = fx.impl_method('CurveProjective', proj, 'random')
